@@ -739,6 +739,10 @@ loop:
 
 					sc.writeReset(fr.Stream(), RefusedStreamError)
 
+					if fr.Type() == FrameData {
+						sc.creditConnWindow(fr.Len())
+					}
+
 					continue
 				}
 
@@ -896,6 +900,19 @@ func (sc *serverConn) consumeRecvWindow(strm *Stream, fr *FrameHeader, n int) {
 	// just finished with.
 	if !fr.Flags().Has(FlagEndStream) {
 		sc.writeWindowUpdate(strm.ID(), n)
+	}
+
+	sc.creditConnWindow(n)
+}
+
+// creditConnWindow accounts for n bytes of DATA against the connection window
+// and tops the window up once it is half used. DATA counts against the
+// connection window whatever becomes of it, so frames that are thrown away
+// (the stream was refused, the body is over the limit) go through here too:
+// otherwise each one shrinks the peer's window for good.
+func (sc *serverConn) creditConnWindow(n int) {
+	if n <= 0 {
+		return
 	}
 
 	sc.currentWindow -= int32(n)
@@ -1100,6 +1117,8 @@ func (sc *serverConn) handleFrame(strm *Stream, fr *FrameHeader) error {
 		strm.recvBody += len(data)
 
 		if sc.maxRequestBodySize > 0 && strm.recvBody > sc.maxRequestBodySize {
+			sc.creditConnWindow(fr.Len())
+
 			return NewResetStreamError(EnhanceYourCalm, "request body is too large")
 		}
 
